@@ -193,6 +193,60 @@ def session(args):
     return res
 
 
+def tb_session(args):
+    """A resident on-demand tablebase (built by an unlimited search on a <=4-men root) and then unlimited searches on
+    5-men roots whose PVs run into that material: PV extension through the tablebase must still give playable lines."""
+    from . import c13
+    seed, = args
+    rnd = random.Random(seed)
+    ref = uci.RefCli.get()
+    res = dict(viol=[], searches=0, pv_lines=0, groups=0, configs=set(), samples=[], stderr="", rc=0, kinds={}, tbhits=0)
+    base, extra_side = rnd.choice([("KQKN", "b"), ("KQKR", "b"), ("KRKN", "b"), ("KQKB", "b"), ("KRKB", "b"), ("KKQ", "w"), ("KKR", "w")])
+    eng = uci.Engine("rel", rnd.choice(["material_1", "material_2"]))
+    script = []
+
+    def send(c):
+        script.append(c); eng.send(c)
+    send("uci"); send("setoption name Hash value %d" % rnd.choice([8, 16, 64])); send("setoption name Threads value %d" % rnd.choice([1, 2])); send("isready")
+    try:
+        root4 = c13.random_root(rnd, base, ref)
+        if not root4:
+            return res
+        send("position fen %s 0 1" % root4)
+        st = eng.nlines(); send("go infinite")
+        hit = eng.wait_for(lambda l: " tbhits " in l, st, 25)
+        send("stop")
+        if not eng.wait_for(lambda l: l.startswith("bestmove"), st, 60) or not hit:
+            return res
+        k2 = base.index("K", 1)
+        for i in range(6):
+            pc = rnd.choice("QRBN")
+            cls5 = (base[:k2] + pc + base[k2:]) if extra_side == "w" else (base + pc)
+            fen5 = c13.random_root(rnd, cls5, ref)
+            if not fen5:
+                continue
+            fen = fen5 + " 0 1"
+            legal, in_check = ref.legal(fen)
+            send("position fen " + fen)
+            st = eng.nlines(); send("go infinite")
+            time.sleep(rnd.choice([0.2, 0.6, 1.2]))
+            send("stop")
+            r = eng.wait_for(lambda l: l.startswith("bestmove"), st, 60)
+            with eng.cv:
+                lines = [t for _, t in eng.lines[st:(r[0] if r else len(eng.lines))]]
+            v, npv, ng = check_search(None, ref, fen, (legal, in_check), lines, r[1] if r else None, [], 1, "tb-resident", " ; ".join(script[-6:]))
+            res["viol"] += v; res["searches"] += 1; res["pv_lines"] += npv; res["groups"] += ng
+            res["kinds"]["tb-resident-5men"] = res["kinds"].get("tb-resident-5men", 0) + 1
+            res["tbhits"] += sum(1 for l in lines if " tbhits " in l)
+            res["configs"].add((fen, "go infinite", ("tb", base), "", False, "normal"))
+            if not r:
+                break
+    finally:
+        res["rc"] = eng.close("quit")
+        res["stderr"] = eng.stderr_text()
+    return res
+
+
 def run(c):
     quick = c.tier == "quick"
     n_rel = int((400 if quick else 20000) * c.scale)
@@ -213,8 +267,14 @@ def run(c):
     configs = set()
     tot = dict(searches=0, pv_lines=0, groups=0, slow=0)
     kinds = {}
+    ntb = int((8 if quick else 300) * c.scale)
+    def dispatch(j):
+        return tb_session(j[1:]) if j[0] == "tb" else session(j)
+    jobs += [("tb", c.seed * 100000 + 90000 + i) for i in range(ntb)]
+    tb_lines = 0
     with concurrent.futures.ThreadPoolExecutor(max_workers=core.NCPU) as ex:
-        for r in ex.map(session, jobs):
+        for r in ex.map(dispatch, jobs):
+            tb_lines += r.get("tbhits", 0)
             for kind, wit in r["viol"]:
                 c.violation("uci-search-oracle", kind, wit)
             for rep in core.sanitizer_reports(r["stderr"]):
@@ -230,8 +290,9 @@ def run(c):
     c.distinct = len([x for x in configs])
     c.rule = ("one case = one search: (position, limit, option vector, network); positions from posgen (games, tricky list, synthetic templates) "
               "plus forced mate/stalemate/single-move/half-move-clock-99 roots; 8 searches per engine process so hash, killer and history "
-              "leftovers carry over; distinct_nontrivial = distinct (position, go command, options, network, searchmoves?, root class) tuples")
-    c.extra.update(slow_searches_stopped_by_watchdog=tot["slow"], pv_lines_checked=tot["pv_lines"], multipv_groups_checked=tot["groups"], limit_kinds=kinds,
+              "leftovers carry over; plus sessions in which an unlimited search on a <=4-men root leaves an on-demand tablebase resident and 5-men roots are then searched without limits "
+              "(PVs extended through the tablebase); distinct_nontrivial = distinct (position, go command, options, network, searchmoves?, root class) tuples")
+    c.extra.update(tb_resident_sessions=ntb, output_lines_with_tbhits_in_5men_searches=tb_lines, slow_searches_stopped_by_watchdog=tot["slow"], pv_lines_checked=tot["pv_lines"], multipv_groups_checked=tot["groups"], limit_kinds=kinds,
                    roots_without_legal_moves=len([x for x in configs if x[5] == "nolegal"]),
                    roots_single_move=len([x for x in configs if x[5] == "single"]),
                    searches_with_searchmoves=len([x for x in configs if x[4]]), exhaustive=False)
